@@ -95,25 +95,24 @@ def schema_text(name, case):
 
 
 def instance_text(name, case):
-    lines = ["===INSTANCE===", "META:", "  TYPE::TEST", "%s:" % name]
+    sp = case.get("sp") or {"ind": 2, "asg": "::", "quote": False, "blank": False, "endOmit": False}
+    pad = " " * sp["ind"]
+    lines = ["===INSTANCE===", "META:", pad + "TYPE" + sp["asg"] + "TEST", "%s:" % name]
+    n0 = len(lines)
     for f in sorted(case["fields"]):
-        st = case["inst"][f]
-        ok, bad = case["okv"][f], case["badv"][f]
-        if st == "ok":
-            lines.append("  %s::%s" % (f, ok))
-        elif st == "bad":
-            lines.append("  %s::%s" % (f, bad))
-        elif st == "null":
-            lines.append("  %s::null" % f)
-        elif st == "dup_ok_last":
-            lines += ["  %s::%s" % (f, bad), "  %s::%s" % (f, ok)]
-        elif st == "dup_bad_last":
-            lines += ["  %s::%s" % (f, ok), "  %s::%s" % (f, bad)]
+        for t in case["texts"][f]:
+            if sp["quote"] and t and t[0] not in '"0123456789-' and t not in ("null", "true", "false"):
+                t = '"%s"' % t                     # optional quotes around a plain word: same string value
+            if sp["blank"]:
+                lines.append("")
+            lines.append(pad + f + sp["asg"] + t)
     if case["unknown"]:
-        lines.append('  EXTRA::"surprise"')
-    if len(lines) == 4:
-        lines.append("  // nothing")
-    lines += ["===END===", ""]
+        lines.append(pad + "EXTRA" + sp["asg"] + '"surprise"')
+    if len(lines) == n0:
+        lines.append(pad + "// nothing")
+    if not sp["endOmit"]:
+        lines.append("===END===")
+    lines.append("")
     return "\n".join(lines)
 
 
@@ -163,6 +162,9 @@ def replay_doc(item):
     return {"i": i, "case": {k: case[k] for k in ("fields", "policy", "unknown", "inst")}, "obs": obs, "text": text}
 
 
+BASE_STATES = {"ok", "bad", "missing", "null", "dup_ok_last", "dup_bad_last", "ambig"}
+
+
 def _cleanup():
     base = os.environ.get("VERIF_SCRATCH", "/var/tmp")
     for n in os.listdir(base):
@@ -201,12 +203,12 @@ def run(ctx):
                 at = set(ctx.details.get(r["i"], {}).get("at", []))
                 failures.append({"i": r["i"], "case": {"chain": r["case"]["chain"], "text": r["text"]},
                                  "obs": [o for o in r["obs"] if o["v"] in at][:8] or r.get("err"), "fails": fails[r["i"]]})
-        res = ctx.model("SchemaDocs", constants={"MaxFields": 3 if ctx.thorough else 2}, invariants=["EmitCase"],
-                        required_actions=["Fill"])
+        res = ctx.model("SchemaDocs", constants={"MaxFields": 3 if ctx.thorough else 2, "StateSet": BASE_STATES | ({"ok2", "casefold", "numstr"} if ctx.thorough else set()),
+                                                 "Spell": False}, invariants=["EmitCase"], required_actions=["Fill"])
         docs = list(res.payload_lines())
         drecs = engine.parallel_map(replay_doc, [(10 ** 6 + k, d) for k, d in enumerate(docs)], chunk=50)
         dfails = ctx.validate("Trace_SchemaDocs", [{k: r[k] for k in ("i", "case", "obs")} for r in drecs],
-                              constants={"MaxFields": 0})
+                              constants={"MaxFields": 0, "StateSet": set(), "Spell": False})
         for r in drecs:
             if r["i"] in dfails:
                 failures.append({"i": r["i"], "case": r["case"], "obs": r["obs"], "text": r["text"], "fails": dfails[r["i"]]})
